@@ -1,5 +1,4 @@
-import PySMT.Proofs.C12Atoms
-import PySMT.Proofs.C12Types
+import PySMT.Proofs.C12Indep
 /-!
 # C12 — formula analyses are exact
 
@@ -8,24 +7,54 @@ measures of a formula equal what their definitions give on the formula's structu
 the value of a formula depends only on the symbols reported free, and the truth value of a
 quantifier-free formula is a function of the truth values of the atoms reported."
 
-Models: `PySMT.Oracles.{fvO, atomsO, isQFO, typesO, sizeO}` (`Impl/Oracles.lean`, the per-node
-functions of `pysmt/oracles.py` with the class tables regenerated from `pysmt/operators.py`).
-Definitions on the structure: `Term.fv`, `Term.subterms`, `Term.isQF`, `Term.size` (Core);
-`atomsDef`, `skelEval`, `sortsWritten`, `Ty.subsorts`, `Good`, `HasPath`, `Reach`, `IsCard` (Proofs/C12*).
+**Models** (`Impl/Oracles.lean`): `PySMT.Oracles.{fvO, atomsO, isQFO, typesO, typesCustomO, sizeO}` — the
+per-node functions of `pysmt/oracles.py`, class tests from the tables regenerated out of
+`pysmt/operators.py`.
 
-Quantifier of the theorems: all well-typed terms (`Term.wt`: what `create_node` enforces, hence every
-formula that exists) — including quantifiers that shadow free symbols, function symbols, Boolean
-terms inside theory terms; sharing is invisible to a tree (C04 licenses reading object identity as
-structural equality), so the DAG measures count distinct sub-terms.
+**Specification** (trusted reading; `Core/` and `Spec/Analyses.lean`, which does not import the
+models): `Term.fv`, `Term.subterms`, `Term.isQF`, `Term.size`, `eval`; `Term.symOccurs`,
+`Term.fnOccurs`, `Term.symOk`, `Analyses.{isSkel, atomsDef, skelEval, SkelReach, Ty.targs,
+Ty.subsorts, Ty.isDeclared, nodeSorts, sortsWritten, Good, HasPath, IsCard}`. Two statements use a
+definition from `Proofs/`: `Oracles.Occurs` (= `symOccurs ∨ fnOccurs`) and `Oracles.Reach` (only in
+`size_bool_dag_any_term`, which says so).
+
+**Quantifier of the theorems**: all terms with `Term.wt = true` (every sub-term is accepted by the
+model of `SimpleTypeChecker`) — including quantifiers that shadow free symbols, function
+applications, Boolean terms inside theory terms; sharing is invisible to a tree (C04 licenses reading
+object identity as structural equality), so the DAG measures count distinct sub-terms.
+**Boundary**: `wt` covers every formula pySMT can build *except* a bare function-typed symbol used
+as a term (`Symbol("f", FunctionType(INT,[INT]))` itself: `Core/TypeOf` gives it no sort, so
+`wt = false`; the real `get_types(f)` returns `[Int, Int -> Int]`, `get_free_variables` `{f}`).
+Nothing is proved about such terms; the harness checks the real oracles on them against the
+structural definitions (S only).
+
+Which statements are *independent characterisations* and which merely *restate the same recursion*
+is said in each docstring.
 -/
 namespace PySMT.C12
-open PySMT.Oracles
+open PySMT.Oracles PySMT.Analyses
 
 /-! ## free symbols -/
 
-/-- FreeVarsOracle = the definition (`Term.fv`: bound variables removed under their binder only,
-function names included), as a list and hence as a set -/
+/-- FreeVarsOracle = `Term.fv` (Core), as a list and hence as a set. Restates the same case split
+(symbol / application / binder / constant / other): the content is that the class tables
+(`QUANTIFIERS`, `CONSTANTS`, the complement `DEPENDENCIES_SIMPLE_ARGS`) select the right rule for each
+of the 66 node types; the independent characterisations are `fv_qf_occurrences` and the semantic
+`value_depends_on_reported_fv`. -/
 theorem fv_eq_def (t : Term) (hwt : t.wt = true) : fvO t = t.fv := fvO_eq_fv t hwt
+
+/-- independent (occurrence-based) characterisation on quantifier-free terms: the reported symbols
+are exactly the symbols that occur, as a leaf or as the name of an application -/
+theorem fv_qf_occurrences (t : Term) (hwt : t.wt = true) (hqf : isQFO t = true) (s : Sym) :
+    s ∈ fvO t ↔ (t.symOccurs s ∨ t.fnOccurs s) := by
+  rw [fvO_eq_fv t hwt]
+  exact ⟨fv_occurs t hwt s, occurs_fv_qf t hwt (by rw [← isQFO_eq_isQF]; exact hqf) s⟩
+
+/-- with binders: every reported symbol occurs (the converse fails exactly for bound occurrences) -/
+theorem fv_occurs (t : Term) (hwt : t.wt = true) (s : Sym) (hs : s ∈ fvO t) :
+    t.symOccurs s ∨ t.fnOccurs s := by
+  rw [fvO_eq_fv t hwt] at hs
+  exact Oracles.fv_occurs t hwt s hs
 
 /-- the value of a formula depends only on its free symbols … -/
 theorem coincidence (t : Term) (I J : Interp) (hok : t.symOk = true)
@@ -33,7 +62,7 @@ theorem coincidence (t : Term) (I J : Interp) (hok : t.symOk = true)
     (hdom : I.dom = J.dom) (hr : I.div0r = J.div0r) (hi : I.div0i = J.div0i) :
     eval I t = eval J t := PySMT.coincidence t I J hok h hdom hr hi
 
-/-- … hence only on the symbols *reported* free -/
+/-- … hence only on the symbols *reported* free (semantic, independent of any syntactic definition) -/
 theorem value_depends_on_reported_fv (t : Term) (I J : Interp) (hwt : t.wt = true) (hok : t.symOk = true)
     (h : ∀ s ∈ fvO t, I.sym s = J.sym s ∧ I.fn s = J.fn s)
     (hdom : I.dom = J.dom) (hr : I.div0r = J.div0r) (hi : I.div0i = J.div0i) :
@@ -42,15 +71,21 @@ theorem value_depends_on_reported_fv (t : Term) (I J : Interp) (hwt : t.wt = tru
 
 /-! ## atoms -/
 
-/-- AtomsOracle on a Boolean term = the maximal sub-terms below the Boolean skeleton -/
+/-- AtomsOracle on a Boolean term = the maximal sub-terms below the Boolean skeleton (`atomsDef` is
+typed — "Boolean `ite`" — where the oracle is class-driven with `None` propagation: not the same
+recursion) -/
 theorem atoms_eq_def (t : Term) (hwt : t.wt = true) (hb : t.typeOf = some .bool) :
     atomsO t = .atoms (atomsDef t) := by
   rw [atomsO_spec t hwt .bool hb]; simp
 
-/-- … and `None` ("theory term") on a term of any other sort; it never raises on a formula that exists -/
+/-- … and `None` ("theory term") on a term of any other sort; it never raises on a well-typed term -/
 theorem atoms_theory_term (t : Term) (hwt : t.wt = true) (τ : Ty) (hτ : t.typeOf = some τ) (hne : τ ≠ .bool) :
     atomsO t = .theory := by
   rw [atomsO_spec t hwt τ hτ]; simp [hne]
+
+/-- the atoms are the non-skeleton nodes reached through the Boolean skeleton -/
+theorem atoms_are_skeleton_leaves (t s : Term) : s ∈ atomsDef t ↔ SkelReach t s ∧ isSkel s = false :=
+  mem_atomsDef_iff t s
 
 /-- two interpretations that give every reported atom of a quantifier-free Boolean formula the same
 value give the formula the same value; nothing else about the interpretations matters (not even
@@ -83,9 +118,26 @@ theorem qf_iff (t : Term) : isQFO t = true ↔ ∀ s ∈ t.subterms, s.op.isQuan
 /-! ## sorts -/
 
 /-- `get_types` = the sorts written in the formula (of symbols, bound variables, function signatures,
-constants, array values) closed under sub-sorts … -/
+constants, array values) closed under sub-sorts. `nodeSorts` lists, per node type, which sorts are
+"written" at a node — the same table as the walk's per-node rule; the content of the theorem is the
+bottom-up combination (nothing is lost in arguments: fixed defects F43, F46) and the expansion. What
+the result is *for* is stated independently in `types_declare_free_symbols`, `types_declare_bound`,
+`types_closed`. -/
 theorem types_eq_def (t : Term) (hwt : t.wt = true) (τ : Ty) :
     τ ∈ typesO t ↔ ∃ σ ∈ sortsWritten t, τ ∈ Ty.subsorts σ := mem_typesO t hwt τ
+
+/-- declaration completeness: the sort of every free symbol, and every parameter sort of every free
+function symbol, is reported (what `smtlibscript_from_formula` / `SmtLibSolver` rely on) -/
+theorem types_declare_free_symbols (t : Term) (hwt : t.wt = true) (s : Sym) (hs : s ∈ t.fv) :
+    s.ret ∈ typesO t ∧ ∀ p ∈ s.params, p ∈ typesO t := typesO_declares_fv t hwt s hs
+
+/-- … and the sorts of the bound variables of every quantifier in the formula -/
+theorem types_declare_bound (t : Term) (hwt : t.wt = true) (op : Op) (hq : op.isQuantifier = true)
+    (args : List Term) (vs : List Sym) (h : Term.node op args (.qvars vs) ∈ t.subterms) :
+    ∀ v ∈ vs, v.ret ∈ typesO t := typesO_declares_bound t hwt op hq args vs h
+
+/-- closure under argument sorts -/
+theorem types_closed (t : Term) : ∀ τ ∈ typesO t, ∀ σ ∈ Ty.targs τ, σ ∈ typesO t := typesO_closed t
 
 /-- … without duplicates … -/
 theorem types_nodup (t : Term) : (typesO t).Nodup := good_nodup (typesO_good t)
@@ -94,6 +146,16 @@ theorem types_nodup (t : Term) : (typesO t).Nodup := good_nodup (typesO_good t)
 theorem types_order (t : Term) (k : Nat) (hk : k < (typesO t).length) :
     ∀ y ∈ Ty.targs (typesO t)[k], y ∈ (typesO t).take k := good_order (typesO_good t) k hk
 
+/-- `custom_only=True` returns the declared sorts among `get_types`, in the same order … -/
+theorem types_custom_only_filter (t : Term) : typesCustomO t = (typesO t).filter Ty.isDeclared :=
+  typesCustomO_eq t
+
+/-- … i.e. every declared sort occurring in a sort written in the formula, also one reachable only
+through an array sort or a function signature -/
+theorem types_custom_only_spec (t : Term) (hwt : t.wt = true) (τ : Ty) :
+    τ ∈ typesCustomO t ↔ Ty.isDeclared τ = true ∧ ∃ σ ∈ sortsWritten t, τ ∈ Ty.subsorts σ :=
+  mem_typesCustomO t hwt τ
+
 /-- `expand_types` on any list: closure under sub-sorts, in `Good` order -/
 theorem expand_types_spec (ts : List Ty) :
     (∀ x, x ∈ expandTypes ts ↔ ∃ σ ∈ ts, x ∈ Ty.subsorts σ) ∧ Good (expandTypes ts) :=
@@ -101,8 +163,11 @@ theorem expand_types_spec (ts : List Ty) :
 
 /-! ## size measures -/
 
-/-- MEASURE_TREE_NODES = number of nodes of the tree -/
-theorem size_tree_eq_def (t : Term) : sizeO .treeNodes t = t.size := treeO_eq_size t
+/-- MEASURE_TREE_NODES = length of the pre-order list of sub-term occurrences -/
+theorem size_tree_eq_def (t : Term) : sizeO .treeNodes t = t.subterms.length := treeO_eq_length_subterms t
+
+/-- (the same number as Core's `Term.size`; this one restates the recursion) -/
+theorem size_tree_eq_size (t : Term) : sizeO .treeNodes t = t.size := treeO_eq_size t
 
 /-- MEASURE_DAG_NODES = number of distinct sub-terms -/
 theorem size_dag_eq_def (t : Term) : IsCard (fun s => s ∈ t.subterms) (sizeO .dagNodes t) :=
@@ -122,9 +187,25 @@ theorem size_symbols_eq_def (t : Term) :
     IsCard (fun s => s ∈ t.subterms ∧ s.op = .symbol) (sizeO .symbols t) :=
   isCard_eraseDups _ _ (fun s => by rw [symbolsO_eq, List.mem_filter]; simp)
 
-/-- MEASURE_BOOL_DAG = number of distinct sub-terms reached without entering a theory atom
-(`boolDagStop`: relation, Boolean application, Boolean array read) -/
-theorem size_bool_dag_eq_def (t : Term) : IsCard (Reach t) (sizeO .boolDag t) :=
+/-- MEASURE_BOOL_DAG of a Boolean formula = number of distinct nodes reached through the Boolean
+skeleton (`SkelReach`, `Spec/Analyses.lean`: no reference to the model's stop predicate) … -/
+theorem size_bool_dag_eq_def (t : Term) (hwt : t.wt = true) (hb : t.typeOf = some .bool) :
+    IsCard (SkelReach t) (sizeO .boolDag t) :=
+  isCard_eraseDups _ _ (mem_boolDagO_iff_skelReach t hwt hb)
+
+/-- … whose leaves are the atoms: the walk stops exactly at the reported atoms that are not Boolean
+symbols (which have no arguments anyway) — the tie between the measure and the AtomsOracle (fixed
+defect F45) -/
+theorem size_bool_dag_stops_at_atoms (t : Term) (hwt : t.wt = true) (hb : t.typeOf = some .bool) (s : Term)
+    (hs : SkelReach t s) :
+    boolDagStop s.op s.typeOf = true ↔ (s ∈ atomsDef t ∧ s.op ≠ .symbol) :=
+  boolDagStop_iff_atom t hwt hb s hs
+
+/-- for an arbitrary term (also a theory term as root): the nodes reached without passing below a
+node at which the model's own stop predicate `boolDagStop` holds. `Oracles.Reach` is defined in
+`Proofs/C12Basic.lean` *through that predicate*: this statement only says that the set-valued walk
+computes the reachability closure of its own rule. -/
+theorem size_bool_dag_any_term (t : Term) : IsCard (Reach t) (sizeO .boolDag t) :=
   isCard_eraseDups _ _ (mem_boolDagO t)
 
 /-! ## the regenerated operator tables are the ones `Core/Term.lean` was written against -/
@@ -138,17 +219,23 @@ def x : Sym := ⟨"x", [], .int⟩
 def pB : Sym := ⟨"p", [], .bool⟩
 def qB : Sym := ⟨"q", [], .bool⟩
 def fI : Sym := ⟨"f", [.int], .int⟩
+def aU : Sym := ⟨"a", [], .array .int (.custom "U")⟩
+def rU : Sym := ⟨"r", [.custom "V"], .bool⟩
+def cV : Sym := ⟨"c", [], .custom "V"⟩
 /-- `(∀x. f(x) < 1) ∧ (x ≤ 0)`: `x` bound in the first conjunct, free in its sibling -/
 def ex1 : Term :=
   .mkAnd [.mkForall [x] (.node .lt [.app fI [.sym x], .int 1] .none), .node .le [.sym x, .int 0] .none]
 /-- `p ∧ ite(q, p, ite(p,1,0) ≤ 0)`: quantifier-free, a Boolean term inside a theory term -/
 def ex2 : Term :=
   .mkAnd [.sym pB, .mkIte (.sym qB) (.sym pB) (.node .le [.mkIte (.sym pB) (.int 1) (.int 0), .int 0] .none)]
+/-- `(a = a) ∧ r(c)`: declared sorts `U` (only inside an array sort) and `V` (only in a signature and a symbol) -/
+def ex3 : Term := .mkAnd [.mkEq (.sym aU) (.sym aU), .app rU [.sym cV]]
 
 /-- unfold the recursive definitions on the concrete example, then compute -/
 local macro "compute" : tactic => `(tactic|
-  (simp only [ex1, ex2, Term.mkAnd, Term.mkForall, Term.mkIte, Term.app, Term.sym, Term.int, wt_node, typeOf_node,
-     symOk_node, fvO_node, isQFO_node, atomsO_node, typesO, typesWalk_node, sizeO, treeO_node, dagO_node,
+  (simp only [ex1, ex2, ex3, Term.mkAnd, Term.mkForall, Term.mkIte, Term.mkEq, Term.app, Term.sym, Term.int,
+     wt_node, typeOf_node,
+     symOk_node, fvO_node, isQFO_node, atomsO_node, typesCustomO, typesO, typesWalk_node, sizeO, treeO_node, dagO_node,
      leavesO_node, depthO_node, symbolsO_node, boolDagO_node, List.map_cons, List.map_nil]
    decide))
 
@@ -160,7 +247,25 @@ example : atomsO ex2 = .atoms [.sym pB, .sym qB, .sym pB,
     .node .le [.mkIte (.sym pB) (.int 1) (.int 0), .int 0] .none] := by compute
 example : atomsO (.int 1) = .theory := by compute
 example : typesO ex1 = [.int] ∧ typesO ex2 = [.bool, .int] := by compute
+example : ex3.wt = true ∧ typesO ex3 = [.int, .custom "U", .array .int (.custom "U"), .bool, .custom "V"] ∧
+    typesCustomO ex3 = [.custom "U", .custom "V"] := by compute
 example : (List.map (fun m => sizeO m ex2) [.treeNodes, .leaves, .depth]) = [11, 7, 5] := by compute
+/-- hypothesis of `types_declare_bound`: `ex1` contains a quantifier node binding `x` -/
+example : Term.node .forall_ [.node .lt [.app fI [.sym x], .int 1] .none] (.qvars [x]) ∈ ex1.subterms := by
+  simp only [ex1, Term.mkAnd, Term.mkForall, subterms_node, List.map_cons, List.map_nil]
+  simp
+/-- hypothesis of `size_bool_dag_stops_at_atoms`: the atom `ite(p,1,0) ≤ 0` of `ex2` is reached through
+the skeleton (`and`, Boolean `ite`) and is not a symbol -/
+example : SkelReach ex2 (.node .le [.mkIte (.sym pB) (.int 1) (.int 0), .int 0] .none) := by
+  refine .step (by rfl) (List.mem_cons_of_mem _ List.mem_cons_self) ?_
+  refine .step ?_ (List.mem_cons_of_mem _ (List.mem_cons_of_mem _ List.mem_cons_self)) (.refl _)
+  show ((Term.mkIte (.sym qB) (.sym pB) _).typeOf == some .bool) = true
+  simp only [Term.mkIte, Term.sym, Term.int, typeOf_node, List.map_cons, List.map_nil]
+  decide
+/-- the boundary: a bare function symbol is not a term of the model -/
+example : (Term.sym fI).wt = false := by
+  simp only [Term.sym, wt_node, List.map_nil]
+  decide
 end Examples
 
 end PySMT.C12
